@@ -2,7 +2,8 @@
 //
 // TestRoundTrip:   Decode(Serialize(NewTokenV3/V4(proofs))) gives back mint, unit and the proofs.
 // TestDecodeTotal: DecodeToken / DecodeTokenV3 / DecodeTokenV4 on any string return an error or a
-//                  token on which every accessor can be called (see decode_test.go).
+//
+//	token on which every accessor can be called (see decode_test.go).
 package c14
 
 import (
